@@ -853,6 +853,18 @@ func (a AssignInstr) Execute(env *Zlisp) error {
 	if err != nil {
 		return err
 	}
+	err = a.assign(env, lhs, rhs)
+	if err != nil {
+		return err
+	}
+	// like def and set, an assignment is an expression: it leaves
+	// its value on the stack (the generator pops the value of
+	// every statement that is not the last of its body).
+	env.datastack.PushExpr(rhs)
+	return nil
+}
+
+func (a AssignInstr) assign(env *Zlisp, lhs, rhs Sexp) error {
 	switch x := lhs.(type) {
 	case *SexpSymbol:
 		return env.LexicalBindSymbol(x, rhs)
@@ -873,7 +885,7 @@ func (a AssignInstr) Execute(env *Zlisp) error {
 			for i := range x.Val {
 				switch sym := x.Val[i].(type) {
 				case *SexpSymbol:
-					err = env.LexicalBindSymbol(sym, rhsArray.Val[i])
+					err := env.LexicalBindSymbol(sym, rhsArray.Val[i])
 					if err != nil {
 						return err
 					}
